@@ -32,7 +32,7 @@ ASSUMPTIONS = ["integer encodings are used only where every value is integral (c
                "float32 is used for contexts only, and only under Radius / KNearest / LSHNearest (distances and projections upcast first)",
                "a Series as contexts is one column when there are several decisions and one row when there is one (the library's documented disambiguation)"]
 
-ENCODINGS = ["nd_c", "nd_f", "int", "object", "view", "series", "series_shift", "frame", "list_mixed", "narrow", "narrow", "f4"]
+ENCODINGS = ["nd_c", "nd_f", "int", "object", "view", "series", "series_shift", "frame", "list_mixed", "narrow", "narrow", "f4", "rev"]
 
 
 def enc1(values, e, kind):
@@ -57,6 +57,8 @@ def enc1(values, e, kind):
         return np.asarray(values)
     if e == "object":
         return np.asarray(values, dtype=object) if kind == "d" else np.asarray(values)
+    if e == "rev":
+        return np.ascontiguousarray(np.asarray(values)[::-1])[::-1]  # negative stride
     if e == "view":
         big = np.empty(2 * len(values), dtype=np.asarray(values).dtype)
         big[::2] = values
@@ -89,6 +91,8 @@ def enc2(X, e):
         return A.astype(np.int64)
     if e == "object":
         return np.ascontiguousarray(A)
+    if e == "rev":
+        return np.ascontiguousarray(A[::-1, ::-1])[::-1, ::-1]  # negative strides on both axes
     if e == "view":
         big = np.zeros((A.shape[0], 2 * A.shape[1]))
         big[:, ::2] = A
@@ -272,7 +276,7 @@ def run_case(rs, ctx):
         return run_series(rs, ctx, l, p, "one_feature")
     if slot == 6:
         return run_series(rs, ctx, l, p, "one_row")
-    e = ENCODINGS[slot] if slot < 5 else ENCODINGS[5 + int(rs.integers(7))]
+    e = ENCODINGS[slot] if slot < 5 else ENCODINGS[5 + int(rs.integers(8))]
     return run_std(rs, ctx, l, p, e)
 
 
